@@ -9,6 +9,19 @@ KF = {
 }
 
 
+def builders_stage(work, v, pid):
+    """Hybrid caches built through the public builders (every path of builder.go), judged by HybridApi.tla."""
+    out = storelib.run_driver(work, "TestVerif_HybridBuilders", "hybridapi", timeout=600, pkg=".")
+    tf = os.path.join(out, "hybridapi.ndjson")
+    res = storelib.validate(work, tf, "hybridapi", module="HybridApi", cfg="HybridApi.cfg")
+    seen = set()
+    for (prop, path, line, kind) in res["viol"]:
+        if prop == pid and (path, kind) not in seen:
+            seen.add((path, kind))
+            v.report("%s: %s for a cache built as %s (line %s)" % (pid, kind, path, line), tf)
+    return {"public_builder_hybrid_caches_judged": res["lines"]}
+
+
 def run(pid, tier, work, assumptions):
     t0 = time.time()
     thorough = tier == "thorough"
@@ -36,6 +49,7 @@ def run(pid, tier, work, assumptions):
            "violations_of_other_properties_seen": others, "exhaustive": True,
            "samples": [x for x in vlib.read_ndjson_head(tf, 40) if x.get("ev") in ("call", "ret", "sec", "handoff", "secdel")][:12],
            "known_findings_seen": {k: c for k, (w_, c) in v.known.items()}}
+    cov.update(builders_stage(work, v, pid))
     rc = v.finish()
     vlib.write_evidence(pid, tier, "model_checking", cov, assumptions, time.time() - t0, len(v.violations))
     return rc
